@@ -86,6 +86,49 @@ func init() {
 				}
 			}
 		}
+		// Payloads that look like something else: text in the hexadecimal, decimal or base58
+		// alphabets (what Script.String() or an address would give), a BIP276 text itself, JSON,
+		// one repeated byte. The payload is bytes; what the bytes spell must not matter.
+		c.Phase("payload-shapes")
+		{
+			alphabets := []string{"0123456789abcdef", "0123456789ABCDEF", "0123456789", "abcdef", "bc", "123456789ABCDEFGHJKLMNPQRSTUVWXYZabcdefghijkmnopqrstuvwxyz",
+				" \t\n", "{}[]\":,", "\x00", "\xff", "\x00\xff", ":-", "%+", "\x30\x00"}
+			n := uint64(0)
+			for ai, al := range alphabets {
+				for l := 1; l <= 44; l++ {
+					n++
+					if !c.Case(n) {
+						continue
+					}
+					r := c.Rand(n)
+					d := make([]byte, l)
+					for i := range d {
+						d[i] = al[r.Intn(len(al))]
+					}
+					v := 1 + r.Intn(255)
+					nw := v
+					if l%2 == 1 {
+						nw = 1 + r.Intn(255)
+					}
+					rt(c, &c17RT{Prefix: prefixes[(ai+l)%2], Version: v, Network: nw, Data: d})
+					c.Count("payload-shape:alphabet-" + fmt.Sprint(ai))
+				}
+			}
+			for _, s := range []string{"00", "76a914", "0101", "bitcoin-script:010151" + "00000000", hex.EncodeToString(bytes.Repeat([]byte{0xab}, 25)),
+				"1BvBMSEYstWetqTFn5Au4m4GFg7xJaNVN2", `{"hex":"51"}`, "OP_DUP OP_HASH160", "0x51", "51 ", " 51", "5g", "%35%31"} {
+				n++
+				if !c.Case(n) {
+					continue
+				}
+				for _, pf := range prefixes {
+					rt(c, &c17RT{Prefix: pf, Version: 1, Network: 1, Data: []byte(s)})
+					// and the text of a valid encoding of it, as the payload of another
+					inner := refaddr.EncodeBIP276(refaddr.BIP276{Prefix: pf, Version: 1, Network: 1, Data: []byte(s)})
+					rt(c, &c17RT{Prefix: pf, Version: 2, Network: 2, Data: []byte(inner)})
+				}
+				c.Count("payload-shape:spelled")
+			}
+		}
 		c.Phase("corrupt")
 		nenc := 200
 		if c.Thorough {
@@ -209,7 +252,7 @@ func init() {
 		}
 	}
 	p.Floor = func(a *mon.Agg) string {
-		for _, k := range []string{"rt:decoded", "corrupt:lib-rejected", "corrupt:class:substitute", "corrupt:class:insert", "corrupt:class:delete", "validate:compared"} {
+		for _, k := range []string{"rt:decoded", "corrupt:lib-rejected", "corrupt:class:substitute", "corrupt:class:insert", "corrupt:class:delete", "validate:compared", "payload-shape:spelled", "payload-shape:alphabet-0"} {
 			if a.Cov[k] == 0 {
 				return "counter " + k + " is zero"
 			}
